@@ -125,8 +125,27 @@ def work(shard, res, tier, seed):
         from vchk import rowlib
         cases = rowlib.corpus_cases(rng, shard["pipeline"], 10,
                                     [{"batch_size": None, "threshold": 0, "n_jobs": 1}])
-        for c in cases:
-            out = rowlib.run_case(c, trace=False)
+        import shutil
+        import tempfile
+        from vmon import pipeline
+        outs = []
+        for k, c in enumerate(cases):
+            outs.append(rowlib.run_case(c, trace=False))
+            if k < 3:
+                # the same inputs through a default-configuration run that shares its cache directory with an
+                # earlier run which was asked to keep the maps (remove_aam switched off on that object)
+                tmp = tempfile.mkdtemp(prefix="verif_c15c_")
+                try:
+                    b1 = pipeline.make_balancer(n_jobs=1, cache=True, cache_dir=tmp)
+                    b1.remove_aam = False
+                    pipeline.run(b1, c["inputs"])
+                    b2 = pipeline.make_balancer(n_jobs=1, cache=True, cache_dir=tmp)
+                    rows2, _, _ = pipeline.run(b2, c["inputs"])
+                    outs.append({"rows": rows2})
+                    res.count("default_runs_after_a_keep_maps_run_on_the_same_cache_dir")
+                finally:
+                    shutil.rmtree(tmp, ignore_errors=True)
+        for out in outs:
             for row in out["rows"] or []:
                 for col in ("reaction", "input_reaction"):
                     t = row.get(col)
@@ -146,4 +165,4 @@ def work(shard, res, tier, seed):
 
 def conclude_args(res, tier, seed):
     return {"need": {"evaluated:corpus": 500, "evaluated:brackets": 1000, "evaluated:respell": 500,
-                     "pipeline_cells": 50, "evaluated:explicit_aromatic_bonds": 5, "evaluated:long_mixture": 10}, "min_cases": 500}
+                     "pipeline_cells": 50, "default_runs_after_a_keep_maps_run_on_the_same_cache_dir": 2, "evaluated:explicit_aromatic_bonds": 5, "evaluated:long_mixture": 10}, "min_cases": 500}
